@@ -127,7 +127,7 @@ func (p aPObj) concrete() corev1alpha1.ObjectSetObject {
 		md["namespace"] = nsName(p.NS)
 	}
 	if p.OwnerRefs {
-		md["ownerReferences"] = []any{map[string]any{"apiVersion": "v1", "kind": "ConfigMap", "name": "someone", "uid": "u99999"}}
+		md["ownerReferences"] = []any{map[string]any{"apiVersion": "v1", "kind": "ConfigMap", "name": "n77", "uid": "u99999"}}
 	}
 	if p.DryReject {
 		md["annotations"] = map[string]any{dryRejectAnnotation: "true"}
